@@ -462,7 +462,10 @@ func (w *worker[T, JobType]) stopAndRemoveAllWorkers() {
 }
 
 func (w *worker[T, JobType]) start() error {
-	if w.IsRunning() {
+	// only a worker that was never started (or was reset by Restart) may start: every Bind*/With*
+	// call defers start(), and on a paused or stopped worker that used to flip the status back to
+	// Running and spawn a second event loop
+	if w.status.Load() != initiated {
 		return ErrRunningWorker
 	}
 
